@@ -581,6 +581,9 @@ def run(ctx):
             return 1
         return c04.rule_atomic(ctx, ig, cps[0], 'C01')
     ctx.rule('C01.ATOMIC', atomic, 6)
+    from . import c03 as _c03
+    ctx.rule('C01.MEMO', lambda: _c03.rule_memo(ctx, 'C01.MEMO'), 12)
+    ctx.rule('C01.LOGICALFILE', lambda: c04.rule_logical_file(ctx, 'C01'), 2)
     ctx.rule('C01.FSMETA', lambda: c04.rule_file_offsets(ctx, 'C01'), 5)
     from .flushall import rule_flushall
     ctx.rule('C01.FLUSHALL', lambda: rule_flushall(ctx, 'C01'), 3)
